@@ -23,7 +23,7 @@ def shape_name(types, haveFq, hollow, nmodes, valid):
     return "vp_" + h
 
 
-def concretise(b, tid, rng, engine="c"):
+def concretise(b, tid, rng, engine="c", allow_fq=True):
     """One TLC behaviour (scenario c + chunk stops) -> one worker scenario, or None when the
     scenario needs a distribution on a parameter that cannot carry one."""
     c = b["c"]
@@ -40,7 +40,7 @@ def concretise(b, tid, rng, engine="c"):
             vol.append(p)
     types = ["volume" if p in vol else "" for p in range(n)]
     # structural options drawn per scenario (data, not oracle)
-    haveFq = rng.random() < 0.3
+    haveFq = rng.random() < 0.3 and allow_fq
     hollow = rng.random() < 0.4
     nmodes = rng.choice([0, 0, 2])
     if c["vmask"] == 1:
@@ -80,12 +80,12 @@ def concretise(b, tid, rng, engine="c"):
     return sc
 
 
-def big_scenario(tid, rng, lens, engine="c", partition="driver", n_extra=0, cutoff=0.0):
+def big_scenario(tid, rng, lens, engine="c", partition="driver", n_extra=0, cutoff=0.0, allow_fq=True):
     """Harness-chosen mesh (sizes around the driver's 100-point chunk)."""
     n = len(lens) + n_extra
     types = ["volume"] * len(lens) + [""] * n_extra
     valid = rng.choice([(0,), (1, 0, 2.125), (2, 0, len(lens) - 1)]) if len(lens) > 1 else (0,)
-    haveFq = rng.random() < 0.3
+    haveFq = rng.random() < 0.3 and allow_fq
     hollow = rng.random() < 0.4
     nmodes = rng.choice([0, 2])
     d = probe.make_def(shape_name(tuple(types), haveFq, hollow, nmodes, valid), types,
